@@ -27,6 +27,7 @@ import (
 	"github.com/zitadel/oidc/v3/pkg/client/rp"
 	"github.com/zitadel/oidc/v3/pkg/client/rs"
 	"github.com/zitadel/oidc/v3/pkg/client/tokenexchange"
+	httphelper "github.com/zitadel/oidc/v3/pkg/http"
 	"github.com/zitadel/oidc/v3/pkg/oidc"
 	"github.com/zitadel/oidc/v3/pkg/op"
 
@@ -161,9 +162,17 @@ type World struct {
 	Ctx      context.Context
 	// PollInterval of the device flow: fake time inside a bubble; real time in the race run
 	PollInterval time.Duration
+	Hooks *Hooks
+}
+
+// Hooks let the checker observe objects at the moment they come into existence
+// (before the library sees a caller-supplied object; right after a constructor
+// returned an instance). All nil in the race run.
+type Hooks struct {
+	OnSupply func(*Supplied)
+	OnAdd    func(*Inst)
 	// OnHarnessStorage brackets a storage mutation performed by the harness in the
-	// role of the storage / the user (approve a device): such a write is not a
-	// library write. Set by the checker; nil in the race run.
+	// role of the storage / the user (approve a device): not a library write.
 	OnHarnessStorage func(f func())
 }
 
@@ -182,11 +191,18 @@ func (w *World) add(i *Inst) *Inst {
 		i.Name = fmt.Sprintf("%s#%d", i.Ref, w.n)
 	}
 	w.Insts = append(w.Insts, i)
+	if w.Hooks != nil && w.Hooks.OnAdd != nil {
+		w.Hooks.OnAdd(i)
+	}
 	return i
 }
 
 func (w *World) supply(name, class string, ptr any) {
-	w.Supplied = append(w.Supplied, &Supplied{name, class, ptr})
+	su := &Supplied{name, class, ptr}
+	w.Supplied = append(w.Supplied, su)
+	if w.Hooks != nil && w.Hooks.OnSupply != nil {
+		w.Hooks.OnSupply(su)
+	}
 }
 
 func must(err error) {
@@ -202,9 +218,9 @@ func storeConfig() *refstore.Config {
 }
 
 // Build creates the base world: fresh instances, nothing shared with an earlier world.
-func Build() *World {
+func Build(h *Hooks) *World {
 	Net.Reset()
-	w := &World{Ctx: context.Background(), PollInterval: time.Millisecond}
+	w := &World{Ctx: context.Background(), PollInterval: time.Millisecond, Hooks: h}
 	w.OPCfg = rig.DefaultOPConfig()
 	eps := rig.CopyEndpoints()
 	w.LegEps = &eps
@@ -345,8 +361,8 @@ func all(cs ...string) string {
 }
 
 func (w *World) harness(f func()) {
-	if w.OnHarnessStorage != nil {
-		w.OnHarnessStorage(f)
+	if w.Hooks != nil && w.Hooks.OnHarnessStorage != nil {
+		w.Hooks.OnHarnessStorage(f)
 		return
 	}
 	f()
@@ -428,6 +444,14 @@ func buildOps() []Op {
 			w.newProvider("op.NewProvider+WithCORSOptions", "op-cors.example", op.WithCORSOptions(co))
 			return "ok"
 		}},
+		{Name: "op.NewProvider+other-options", Kind: "ctor-provider", Entry: "op.NewProvider+other-options", Run: func(w *World) string {
+			ks := &op.OpenIDKeySet{Storage: w.R.Storage}
+			pass := func(h http.Handler) http.Handler { return h }
+			w.newProvider("op.NewProvider+other-options", "op-other.example", op.WithAllowInsecure(), op.WithHttpInterceptors(pass, pass),
+				op.WithAccessTokenKeySet(ks), op.WithAccessTokenVerifierOpts(op.WithSupportedAccessTokenSigningAlgorithms("ES256")),
+				op.WithIDTokenHintKeySet(ks), op.WithIDTokenHintVerifierOpts(op.WithSupportedIDTokenHintSigningAlgorithms("ES256")))
+			return "ok"
+		}},
 		{Name: "op.NewLegacyServer", Kind: "ctor-provider", Entry: "op.NewLegacyServer", Run: func(w *World) string {
 			eps := rig.CopyEndpoints()
 			w.n++
@@ -442,6 +466,20 @@ func buildOps() []Op {
 		}},
 		{Name: "rp.NewRelyingPartyOIDC+WithHTTPClient", Kind: "ctor-client", Entry: "rp.NewRelyingPartyOIDC", Run: func(w *World) string {
 			w.newRP("", "rp.NewRelyingPartyOIDC+WithHTTPClient", true, true)
+			return "ok"
+		}},
+		{Name: "rp.NewRelyingPartyOIDC+other-options", Kind: "ctor-client", Entry: "rp.NewRelyingPartyOIDC", Run: func(w *World) string {
+			ch := httphelper.NewCookieHandler([]byte("0123456789abcdef0123456789abcdef"), []byte("0123456789abcdef"))
+			w.n++
+			w.supply(fmt.Sprintf("CookieHandler#%d", w.n), "httphelper.CookieHandler", ch)
+			r, err := rp.NewRelyingPartyOIDC(w.Ctx, rig.Issuer, WebID, WebSecret, Redirect, strings.Fields(Scopes),
+				rp.WithPKCE(ch), rp.WithVerifierOpts(rp.WithIssuedAtOffset(5*time.Second)), rp.WithAuthStyle(oauth2.AuthStyleInHeader),
+				rp.WithSigningAlgsFromDiscovery(), rp.WithLogger(rig.Discard),
+				rp.WithErrorHandler(func(http.ResponseWriter, *http.Request, string, string, string) {}),
+				rp.WithUnauthorizedHandler(func(http.ResponseWriter, *http.Request, string, string) {}),
+				rp.WithJWTProfile(rp.SignerFromKeyAndKeyID(keys.Get("rsa2").PEM, "jk1")))
+			must(err)
+			w.add(&Inst{Kind: "rp", Ref: "rp.NewRelyingPartyOIDC+other-options", Obj: r, RP: r, Issuer: rig.Issuer})
 			return "ok"
 		}},
 		{Name: "rp.NewRelyingPartyOAuth", Kind: "ctor-client", Entry: "rp.NewRelyingPartyOAuth", Run: func(w *World) string {
